@@ -20,9 +20,12 @@ def Obj.hom3 (o : Obj K) (b1 b2 b3 : Basis K) (tol : K) (us vs ws : List K) (ten
 theorem Obj.outOfDomain3_iff {o : Obj K} {b1 b2 b3 : Basis K} (hb : o.bases = #[b1, b2, b3])
     (tol : K) (us vs ws : List K) :
     o.OutOfDomain tol [us, vs, ws] ↔
-      (b1.periodic < 0 ∧ ∃ t ∈ us, snap b1 tol t < b1.start ∨ b1.stop < snap b1 tol t) ∨
-      (b2.periodic < 0 ∧ ∃ t ∈ vs, snap b2 tol t < b2.start ∨ b2.stop < snap b2 tol t) ∨
-      (b3.periodic < 0 ∧ ∃ t ∈ ws, snap b3 tol t < b3.start ∨ b3.stop < snap b3 tol t) := by
+      (b1.periodic < 0 ∧
+        (us = [] ∨ ∃ t ∈ us, snap b1 tol t < b1.start ∨ b1.stop < snap b1 tol t)) ∨
+      (b2.periodic < 0 ∧
+        (vs = [] ∨ ∃ t ∈ vs, snap b2 tol t < b2.start ∨ b2.stop < snap b2 tol t)) ∨
+      (b3.periodic < 0 ∧
+        (ws = [] ∨ ∃ t ∈ ws, snap b3 tol t < b3.start ∨ b3.stop < snap b3 tol t)) := by
   simp [Obj.OutOfDomain, hb]
 
 theorem Obj.evalCore3 {o : Obj K} {b1 b2 b3 : Basis K} (hb : o.bases = #[b1, b2, b3]) (tol : K)
@@ -123,12 +126,18 @@ theorem Obj.not_outOfDomain3 {o : Obj K} {b1 b2 b3 : Basis K} (hb : o.bases = #[
     (hv1 : b1.Valid) (hv2 : b2.Valid) (hv3 : b3.Valid) {tol : K} (htol : 0 < tol)
     {us vs ws : List K}
     (hus : ∀ u ∈ us, b1.Admissible tol u) (hvs : ∀ v ∈ vs, b2.Admissible tol v)
-    (hws : ∀ w ∈ ws, b3.Admissible tol w) :
+    (hws : ∀ w ∈ ws, b3.Admissible tol w)
+    (hne1 : b1.periodic < 0 → us ≠ [] := by (first | assumption | (simp; done) | skip))
+    (hne2 : b2.periodic < 0 → vs ≠ [] := by (first | assumption | (simp; done) | skip))
+    (hne3 : b3.periodic < 0 → ws ≠ [] := by (first | assumption | (simp; done) | skip)) :
     ¬ o.OutOfDomain tol [us, vs, ws] := by
   rw [Obj.outOfDomain3_iff hb]
-  rintro (⟨h1, t, ht, h2⟩ | ⟨h1, t, ht, h2⟩ | ⟨h1, t, ht, h2⟩)
+  rintro (⟨h1, h0 | ⟨t, ht, h2⟩⟩ | ⟨h1, h0 | ⟨t, ht, h2⟩⟩ | ⟨h1, h0 | ⟨t, ht, h2⟩⟩)
+  · exact hne1 h1 h0
   · exact Basis.Admissible.not_out hv1 htol (hus t ht) ⟨h1, h2⟩
+  · exact hne2 h1 h0
   · exact Basis.Admissible.not_out hv2 htol (hvs t ht) ⟨h1, h2⟩
+  · exact hne3 h1 h0
   · exact Basis.Admissible.not_out hv3 htol (hws t ht) ⟨h1, h2⟩
 
 /-- Non-rational volume on a tensor grid: the result entries in terms of the code's rows. -/
@@ -227,7 +236,10 @@ theorem Obj.evaluate3_spec_nonrational {o : Obj K} {b1 b2 b3 : Basis K}
     (hs : o.cps.shape = [b1.numFunctions, b2.numFunctions, b3.numFunctions, nc])
     (hr : o.rational = false) {tol : K} (htol : 0 < tol) {us vs ws : List K}
     (hus : ∀ u ∈ us, b1.Admissible tol u) (hvs : ∀ v ∈ vs, b2.Admissible tol v)
-    (hws : ∀ w ∈ ws, b3.Admissible tol w) :
+    (hws : ∀ w ∈ ws, b3.Admissible tol w)
+    (hne1 : b1.periodic < 0 → us ≠ [] := by (first | assumption | (simp; done) | skip))
+    (hne2 : b2.periodic < 0 → vs ≠ [] := by (first | assumption | (simp; done) | skip))
+    (hne3 : b3.periodic < 0 → ws ≠ [] := by (first | assumption | (simp; done) | skip)) :
     ∃ res, o.evaluate tol [us, vs, ws] true = .ok res ∧
       res.shape = [us.length, vs.length, ws.length, nc] ∧
       res.data.size = us.length * vs.length * ws.length * nc ∧
@@ -259,7 +271,10 @@ theorem Obj.evaluate3_spec_rational {o : Obj K} {b1 b2 b3 : Basis K}
       0 < o.cps.get (((j1 * b2.numFunctions + j2) * b3.numFunctions + j3) * (dim + 1) + dim))
     {tol : K} (htol : 0 < tol) {us vs ws : List K}
     (hus : ∀ u ∈ us, b1.Admissible tol u) (hvs : ∀ v ∈ vs, b2.Admissible tol v)
-    (hws : ∀ w ∈ ws, b3.Admissible tol w) :
+    (hws : ∀ w ∈ ws, b3.Admissible tol w)
+    (hne1 : b1.periodic < 0 → us ≠ [] := by (first | assumption | (simp; done) | skip))
+    (hne2 : b2.periodic < 0 → vs ≠ [] := by (first | assumption | (simp; done) | skip))
+    (hne3 : b3.periodic < 0 → ws ≠ [] := by (first | assumption | (simp; done) | skip)) :
     ∃ res, o.evaluate tol [us, vs, ws] true = .ok res ∧
       res.shape = [us.length, vs.length, ws.length, dim] ∧
       res.data.size = us.length * vs.length * ws.length * dim ∧
@@ -323,7 +338,10 @@ theorem Obj.evaluate3_in_bbox {o : Obj K} {b1 b2 b3 : Basis K}
     (hs : o.cps.shape = [b1.numFunctions, b2.numFunctions, b3.numFunctions, nc])
     (hr : o.rational = false) {tol : K} (htol : 0 < tol) {us vs ws : List K}
     (hus : ∀ u ∈ us, b1.Admissible tol u) (hvs : ∀ v ∈ vs, b2.Admissible tol v)
-    (hws : ∀ w ∈ ws, b3.Admissible tol w) :
+    (hws : ∀ w ∈ ws, b3.Admissible tol w)
+    (hne1 : b1.periodic < 0 → us ≠ [] := by (first | assumption | (simp; done) | skip))
+    (hne2 : b2.periodic < 0 → vs ≠ [] := by (first | assumption | (simp; done) | skip))
+    (hne3 : b3.periodic < 0 → ws ≠ [] := by (first | assumption | (simp; done) | skip)) :
     ∃ res, o.evaluate tol [us, vs, ws] true = .ok res ∧
       ∀ i1 i2 i3 c, i1 < us.length → i2 < vs.length → i3 < ws.length → c < nc →
         ((o.boundingBox).getD c (0, 0)).1
